@@ -98,16 +98,23 @@ func emitTree(b *bytes.Buffer, name string, es []tent) {
 }
 
 func genTables(repo string, root *pkg) {
-	au := load(repo, "auparse", "auparse")
-	genMsgTypes(au)
-	genErrno(au)
-	genArches(au)
-	genSyscalls(au)
-	ru := load(repo, "rule", "rule")
-	genRuleTables(ru)
-	co := load(repo, "aucoalesce", "aucoalesce")
-	genEventTypes(co, au)
-	genNormNames(repo)
+	var au, ru, co *pkg
+	runGen("load auparse", []string{"MsgTypes", "Errno", "Arches", "Syscalls"}, func() { au = load(repo, "auparse", "auparse") })
+	if au != nil {
+		runGen("msgtypes", []string{"MsgTypes"}, func() { genMsgTypes(au) })
+		runGen("errno", []string{"Errno"}, func() { genErrno(au) })
+		runGen("arches", []string{"Arches"}, func() { genArches(au) })
+		runGen("syscalls", []string{"Syscalls"}, func() { genSyscalls(au) })
+	}
+	runGen("load rule", []string{"RuleTables"}, func() { ru = load(repo, "rule", "rule") })
+	if ru != nil {
+		runGen("ruletables", []string{"RuleTables"}, func() { genRuleTables(ru) })
+	}
+	runGen("load aucoalesce", []string{"EventTypes"}, func() { co = load(repo, "aucoalesce", "aucoalesce") })
+	if co != nil {
+		runGen("eventtypes", []string{"EventTypes"}, func() { genEventTypes(co, au) })
+	}
+	runGen("normnames", []string{"NormNames"}, func() { genNormNames(repo) })
 }
 
 func genMsgTypes(au *pkg) {
